@@ -184,8 +184,8 @@ impl Prop for C08 {
         for alg in ALGS {
             for layout in long_layouts(tier == Tier::Thorough) {
                 let (n, m) = layout_lens(&layout, 0, 0);
-                if alg == Algorithm::Lcs && n * m > 60_000 {
-                    continue;
+                if (alg == Algorithm::Lcs && n * m > 60_000) || n + m > 1300 {
+                    continue; // every failing position re-runs the diff: the deepest searches are left to C01 / C02
                 }
                 for stack in [Stack::Bare, Stack::CompactReplace] {
                     v.push(Shape { alg, n, m, stack, clock: false, long: Some(layout) });
@@ -268,6 +268,55 @@ impl Prop for C08 {
                     );
                 }
                 engine::witness("paths_that_succeeded");
+                // one adapter object used for several diffs in a row (a non-empty one, one with two
+                // empty ranges, the first again): every diff ends with exactly one finish, and the
+                // third diff's calls are the first's
+                if !s.clock && s.long.is_none() && matches!(s.stack, Stack::Replace | Stack::CompactReplace) {
+                    struct Plain(Vec<Call>);
+                    impl DiffHook for Plain {
+                        type Error = MyErr;
+                        fn equal(&mut self, a: usize, b: usize, c: usize) -> Result<(), MyErr> {
+                            self.0.push(Call::Equal(a, b, c));
+                            Ok(())
+                        }
+                        fn delete(&mut self, a: usize, b: usize, c: usize) -> Result<(), MyErr> {
+                            self.0.push(Call::Delete(a, b, c));
+                            Ok(())
+                        }
+                        fn insert(&mut self, a: usize, b: usize, c: usize) -> Result<(), MyErr> {
+                            self.0.push(Call::Insert(a, b, c));
+                            Ok(())
+                        }
+                        fn replace(&mut self, a: usize, b: usize, c: usize, d: usize) -> Result<(), MyErr> {
+                            self.0.push(Call::Replace(a, b, c, d));
+                            Ok(())
+                        }
+                        fn finish(&mut self) -> Result<(), MyErr> {
+                            self.0.push(Call::Finish);
+                            Ok(())
+                        }
+                    }
+                    let mut plain = Plain(vec![]);
+                    {
+                        let mut rp = Replace::new(&mut plain);
+                        let (o, n) = (&inp.old, &inp.new);
+                        let e_o = inp.or.end..inp.or.end;
+                        let e_n = inp.nr.end..inp.nr.end;
+                        let r = algorithms::diff(s.alg, &mut rp, o, inp.or.clone(), n, inp.nr.clone())
+                            .and_then(|_| algorithms::diff(s.alg, &mut rp, o, e_o, n, e_n))
+                            .and_then(|_| algorithms::diff(s.alg, &mut rp, o, inp.or.clone(), n, inp.nr.clone()));
+                        claim!(r.is_ok(), "reused adapter returned an error");
+                    }
+                    let segs: Vec<&[Call]> = plain.0.split_inclusive(|c| *c == Call::Finish).collect();
+                    claim!(
+                        segs.len() == 3 && segs.iter().all(|x| x.last() == Some(&Call::Finish)),
+                        "one Replace adapter used for three diffs in a row (the second with two empty ranges): the hook saw {:?}, expected three runs each ending in one finish",
+                        plain.0
+                    );
+                    claim!(segs[1].len() == 1, "a diff of two empty ranges through a reused adapter produced calls {:?}", segs[1]);
+                    claim!(segs[0] == segs[2], "the same diff through a reused adapter gives {:?} the first time and {:?} the third time", segs[0], segs[2]);
+                    engine::witness("paths_with_a_reused_adapter");
+                }
                 // a hook that does not override replace receives a delete followed by an insert
                 if !s.clock && matches!(s.stack, Stack::Replace | Stack::CompactReplace) {
                     let mut plain = Rec::<false>::new(k);
@@ -330,10 +379,10 @@ impl Prop for C08 {
                 "similar::DiffOp::apply_to_hook (inside Compact::finish)",
                 "patience::Patience hook (equal/finish forwarding errors)",
             ],
-            bounds: format!("3 algorithms x n,m in 0..={} x adapter stacks {{none, &mut, Replace, Compact, Compact<Replace>, NoFinishHook, NoFinishHook<Replace>}}; the index k of the failing hook call is a z3 Int >= 0, each hook call i decides k == i, so every failing position (incl. finish) and 'never fails' are explored; for n,m<=3 and the stacks none / Replace / Compact<Replace> additionally through algorithms::diff_deadline under the symbolic clock (every expiry point x every failing position); plus the long structured families of common.rs::long_layouts (about 30 (thorough 53) inputs of 40..600 items a side, stacks none and Compact<Replace>, every failing position of the call stream)", match tier { Tier::Quick => 4, Tier::Thorough => 5 }),
+            bounds: format!("3 algorithms x n,m in 0..={} x adapter stacks {{none, &mut, Replace, Compact, Compact<Replace>, NoFinishHook, NoFinishHook<Replace>}}; the index k of the failing hook call is a z3 Int >= 0, each hook call i decides k == i, so every failing position (incl. finish) and 'never fails' are explored; for n,m<=3 and the stacks none / Replace / Compact<Replace> additionally through algorithms::diff_deadline under the symbolic clock (every expiry point x every failing position); for the Replace stacks also one adapter object reused for three diffs in a row (inputs, two empty ranges, inputs again); plus the long structured families of common.rs::long_layouts (about 30 (thorough 53) inputs of 40..600 items a side, stacks none and Compact<Replace>, every failing position of the call stream)", match tier { Tier::Quick => 4, Tier::Thorough => 5 }),
             outside: "lengths beyond the bound; hooks that fail more than once or panic".into(),
             assumptions: vec!["the failing hook returns its error exactly once".into()],
-            required_witnesses: vec!["paths_where_a_hook_call_failed", "paths_where_finish_failed", "paths_that_succeeded", "paths_with_default_replace", "paths_where_the_deadline_fired", "long_structured_paths"],
+            required_witnesses: vec!["paths_with_a_reused_adapter", "paths_where_a_hook_call_failed", "paths_where_finish_failed", "paths_that_succeeded", "paths_with_default_replace", "paths_where_the_deadline_fired", "long_structured_paths"],
             rule: "one state = one explored path = one equality pattern x one failing call index; one transition = one solver decision".into(),
         }
     }
